@@ -297,6 +297,15 @@ func (h *hist) runHistory() (violated bool) {
 }
 
 func (h *hist) doStep() bool {
+	if h.r.Intn(6) == 0 && !txpool.LastSortingDone.IsZero() {
+		// nobody has asked for a fee-sorted listing for more than AUTO_FEE_PKGS_SUSPEND_AFTER: the incremental upkeep of the
+		// fee packages suspends itself; whatever this step changes has to show in the next listing all the same
+		txpool.TxMutex.Lock()
+		txpool.LastSortingDone = time.Now().Add(-txpool.AUTO_FEE_PKGS_SUSPEND_AFTER - time.Minute)
+		txpool.TxMutex.Unlock()
+		h.note("idle: last listing back-dated beyond the fee-package suspend time")
+		h.run.Inc("steps_after_an_idle_period_without_listings")
+	}
 	switch h.kind {
 	case "simple":
 		h.stepSimple()
